@@ -191,10 +191,25 @@ def main():
             #  `if <name>.is_ok()`, `if let Ok(..) = <name>`) or calls write_snapshot itself puts SwSnapshot into the gate.
             #  Any other header is not understood (not found).
             m4 = re.search(marks[4][1], tail)
-            m3s = re.search(r"(?:let\s+(mut\s+)?(\w+)\s*(?::[^=;]*)?=\s*)?write_snapshot\s*\(", tail)
+            m3s = re.search(r"write_snapshot\s*\(", tail)
             if m4 and m3s:
-                snap_name = m3s.group(2)
-                need(snap_name is not None, "run_session: the result of write_snapshot is not bound by a `let` (expected `let _ = write_snapshot(..)`)")
+                # the statement that holds the call: from the previous `;` `{` `}` to the next `;` outside parentheses
+                st0 = max(tail.rfind(";", 0, m3s.start()), tail.rfind("}", 0, m3s.start()), tail.rfind("{", 0, m3s.start())) + 1
+                j, depth = m3s.end(), 1
+                while j < len(tail) and not (depth == 0 and tail[j] in ";{"):
+                    depth += {"(": 1, ")": -1}.get(tail[j], 0)
+                    j += 1
+                stmt = re.sub(r"\s+", " ", tail[st0:j]).strip()
+                call = r"write_snapshot\s*\((?:[^()]|\([^()]*\))*\)"
+                mlet = re.fullmatch(r"let (?:mut )?(\w+)(?: ?: ?[^=]+)? ?= ?" + call + r"(?: ?\. ?ok ?\( ?\))?", stmt)
+                snap_name = None
+                if mlet:
+                    snap_name = mlet.group(1)          # `_` or `_x`: discarded / kept under a name
+                elif re.fullmatch(r"(?:_ ?= ?)?" + call + r"(?: ?\. ?ok ?\( ?\))?", stmt) or re.fullmatch(r"drop ?\( ?" + call + r" ?\)", stmt):
+                    snap_name = "_"                     # `write_snapshot(..).ok();` / `_ = …;` / `drop(…)`: result discarded
+                elif tail[j : j + 1] == "{":
+                    snap_name = "_"                     # the call sits in a block header: judged with the headers below
+                need(snap_name is not None, "run_session: the statement calling write_snapshot is not understood: `%s`" % stmt[:120])
                 stack, depth_ok = [], True
                 for i, c in enumerate(tail[: m4.start()]):
                     if c == "{":
